@@ -307,10 +307,14 @@ Definition law_clone_independent (d before a1 a2 a3 : dres) : bool :=
 
 (* S = r.SubWithoutAssert(x), B = S.Add(x) as computed by Go: back to r in every dimension (r's map not nil) *)
 Definition law_sub_add (r x S B : res) : bool :=
+  zeqb (cpu B) (cpu r) && zeqb (mem B) (mem r) &&
+  zeqb (cpu S) (cpu r - cpu x) && zeqb (mem S) (mem r - mem x) &&
   match sc r with
-  | None => true
+  | None => true    (* nil scalar map: sub returns early, the scalars are not claimed *)
   | Some _ =>
-    zeqb (cpu B) (cpu r) && zeqb (mem B) (mem r) &&
-    zeqb (cpu S) (cpu r - cpu x) &&
     forallb (fun k => zeqb (sget B k) (sget r k) && zeqb (sget S k) (sget r k - sget x k)) (keys_of [r; x; S; B])
   end.
+
+(* an argument (or the receiver's source) observed after an operation equals what was observed before:
+   the two observations travel as token lists *)
+Definition law_unchanged (before after : list Z) : bool := bool_decide (before = after).
